@@ -181,6 +181,46 @@ def h_reverse_eigh_mixed(ctx, D):
         ctx.eq(XB[:, p], plain(fx1.xbar.data)[:, 0], 'xbar dir %d' % p)
 
 
+def h_qr_mixed_rank(ctx, D, shape=(2, 2)):
+    """qr of two directions whose base points have different numerical rank (direction 0 regular,
+    direction 1 with a zero trailing pivot): each direction equals its single-direction result"""
+    from . import c08
+    from .. import stubs
+    from .common import mk_utpm, plain
+    algopy = symx.load_algopy()
+    M, N = shape
+    zero = S.const(0) if ctx.mode == 'sym' else 0.0
+    A0s = []
+    for p in range(2):
+        Q0 = c08.rot2(ctx, 'q%d' % p)
+        R0 = c08.upper(ctx, 'R%d' % p, M, N)
+        if p == 1:
+            R0[M - 1, M - 1] = zero          # rank-deficient base point in this direction only
+            for j in range(M, N):
+                R0[M - 1, j] = zero
+        A0 = np.dot(Q0, R0)
+        if ctx.mode == 'sym':
+            stubs.register('qr', A0[:, :M], (Q0, R0[:, :M]))
+            stubs.register('qr', A0, (Q0, R0))
+        A0s.append(A0)
+    X = c08.build_input(ctx, A0s, D, (M, N))
+    Q, R = algopy.qr(mk_utpm(ctx, algopy, X))
+    Qd, Rd = plain(Q.data), plain(R.data)
+    for p in range(2):
+        Q1, R1 = algopy.qr(mk_utpm(ctx, algopy, X[:, p:p + 1]))
+        # sign-invariant comparison (the factors are fixed up to the sign of each column / row pair)
+        for d in range(D):
+            full = sum(np.dot(Qd[c, p], Rd[d - c, p]) for c in range(d + 1))
+            single = sum(np.dot(plain(Q1.data)[c, 0], plain(R1.data)[d - c, 0]) for c in range(d + 1))
+            ctx.eq(full, single, 'Q R of direction %d, order %d: P=2 run == single-direction run' % (p, d))
+            qq = sum(np.dot(Qd[c, p], Qd[d - c, p].T) for c in range(d + 1))
+            qq1 = sum(np.dot(plain(Q1.data)[c, 0], plain(Q1.data)[d - c, 0].T) for c in range(d + 1))
+            ctx.eq(qq, qq1, 'Q Qt of direction %d, order %d' % (p, d))
+        if p == 0:
+            for d in range(D):
+                ctx.eq(sum(np.dot(Qd[c, 0], Rd[d - c, 0]) for c in range(d + 1)), X[d, 0], 'regular direction: Q R == A order %d' % d)
+
+
 def npx_sarr(ctx, C):
     from .. import npx
     if ctx.mode == 'sym':
@@ -203,6 +243,7 @@ def units(tier, seed):
     for pn in ['x*x[::-1]', 'x[1:]*x[:-1]', 'exp(dot)']:
         out.append(Unit('C11/jacobian(Taylor argument)/%s/D2,P2' % pn, 'symx.props.c11', 'h_jacobian_dirs', {'pname': pn, 'D': 2, 'P': 2},
                         {'property': PROP}))
+    out.append(Unit('C11/qr, rank-deficient base point in one direction only/D3', 'symx.props.c11', 'h_qr_mixed_rank', {'D': 3}, {'property': PROP, 'path_budget': 100}))
     out.append(Unit('C11/floordiv, 0/0 in one direction only/D3', 'symx.props.c11', 'h_floordiv_mixed', {'D': 3}, {'property': PROP}))
     out.append(Unit('C11/reverse/eigh, repeated eigenvalue in one direction only/D2', 'symx.props.c11', 'h_reverse_eigh_mixed', {'D': 2},
                     {'property': PROP, 'float_tol': 1e-6}))
